@@ -525,6 +525,10 @@ func callSSA(i *interpreter, caller *frame, callpos token.Pos, fn *ssa.Function,
 		if fn.Pkg != nil && strings.HasSuffix(fn.Pkg.Pkg.Path(), "/zzverif") {
 			return verifIntrinsic(fr, fn.Name(), args)
 		}
+		if stub := i.stubs[name]; stub != nil && (caller == nil || caller.fn != stub) {
+			i.run.noteCall(fn, true)
+			return callSSA(i, caller, callpos, stub, args, nil)
+		}
 		if ext := externals[name]; ext != nil {
 			if i.mode&EnableTracing != 0 {
 				fmt.Fprintln(os.Stderr, "\t(external)")
